@@ -42,6 +42,10 @@ class RngVal(Opaque):
             return wrap(T.add(lo, T.mul(T.sub(hi, lo), term_of(u))))
         raise Unsupported("Generator." + name)
 
+    def deepcopy(self, itp, memo):
+        # a copy of a generator starts from the same state and advances independently of the original
+        return RngVal(self.state, self.origin + " (copy)")
+
 
 _NEXT = T.uf("rng_next", "int", "int", "int")  # (state, amount) -> state
 _DRAW = T.uf("rng_draw", "int", "int", "real")  # (state, k) -> U in (0,1)
